@@ -120,6 +120,19 @@ pub fn recover(options: LsmtkOptions, metadata: Vec<SstMetadata>) -> Result<Vers
         vertices[idx].peers = vertices[vertices[idx].color].peers;
         vertices[idx].bytes_within_color = vertices[vertices[idx].color].bytes_within_color;
     }
+    // Files of one strongly-connected component overlap in keys and in time; nothing in the
+    // metadata says which of them holds the newest version of a key.  They, and everything that
+    // has to sit above them, go to level 0 where reads compare timestamps.
+    if let Some(cutoff) = vertices
+        .iter()
+        .filter(|v| v.peers > 1)
+        .map(|v| v.level)
+        .max()
+    {
+        for v in vertices.iter_mut() {
+            v.level = v.level.saturating_sub(cutoff);
+        }
+    }
     // Adjust levels downward so that max_level == NUM_LEVELS.
     let max_level = vertices
         .iter()
